@@ -18,7 +18,7 @@ NOT_DECIDED = ["that a checked result is the mathematically right number", "deci
 
 INT_IDS = {"Int8", "Int16", "Int32", "Int64", "Int128", "UInt8", "UInt16", "UInt32", "UInt64", "UInt128", "Decimal64", "Decimal128"}
 SQL_INTS = {"i8", "i16", "i32", "i64", "i128", "u8", "u16", "u32", "u64", "u128"}
-MODULES = ("::scalar::builtin::arith::", "::scalar::builtin::negate::", "::scalar::builtin::numeric::",
+MODULES = ("::scalar::builtin::arith::", "::scalar::builtin::negate::", "::scalar::builtin::numeric::", "::scalar::builtin::datetime::",
            "::aggregate::builtin::sum::", "::aggregate::builtin::avg::")
 KERNEL_PREFIX = "glaredb_core::functions::"
 OPS = r"<(?P<ty>[iu](?:8|16|32|64|128)) as std::ops::(?P<op>Add|Sub|Mul|Div|Rem|Neg|AddAssign|SubAssign|MulAssign|DivAssign|RemAssign|Shl|Shr)(?:<[^>]*>)?>::"
